@@ -42,7 +42,7 @@ LEVEL_TEXT = (
 )
 LEVEL_NOTE = "Trusted: the frame builder (mc/frames.py) and pandas as producer. Bounded dimension pool; int16 index overflow (> 32767 items) is outside the bound."
 
-SETS3_Q = [("Y", "S", "N"), ("U", "Y", "T"), ("T", "S", "O"), ("S", "T", "U"), ("N", "U", "S"), ("U", "N", "T"), ("T", "N", "I"), ("O", "U", "N"), ("S", "O", "I"), ("I", "T", "S"), ("U", "S", "T")]
+SETS3_Q = [("G", "S", "T"), ("U", "G", "O"), ("Y", "S", "N"), ("U", "Y", "T"), ("T", "S", "O"), ("S", "T", "U"), ("N", "U", "S"), ("U", "N", "T"), ("T", "N", "I"), ("O", "U", "N"), ("S", "O", "I"), ("I", "T", "S"), ("U", "S", "T")]
 ROWPERMS = ("id", "rev", "rot2", "interleave")
 COLPERMS = ("id", "rev", "rot1")
 
